@@ -44,6 +44,9 @@ def gen_cases(rng, n):
         cases.append(dict(kind="multi" if multi else "single", types=[str(rng.choice(PTYPES)) for _ in range(int(rng.integers(1, 5)))] if multi else [PTYPES[k % 7]],
                           sky=SKY[(k // 2) % 3], loss=c07.LOSSES[k % 10], renderer=RKINDS[0 if k % 4 else int(rng.integers(1, 3))],
                           suffix=str(rng.choice(["", "_a", "_7"])), N=[10, 11, 12, 9][(k // 3) % 4] + 0 * int(rng.choice([10, 12])), mask=str(rng.choice(["none", "random", "half"])),
+                          # every fifth single-source case replaces three auto priors by user-set ones through the public setters
+                          # (a truncation bound at exactly 0, a plain Gaussian, a uniform)
+                          custom=(k % 5 == 1 and not multi),
                           seed=int(rng.integers(0, 2 ** 31))))
     return cases
 
@@ -72,6 +75,9 @@ def real_eval(payload):
             N, sfx = c["N"], c["suffix"]
             positive = c["loss"] == "cash_loss"
             data, rms, psf = U.make_images(rng, N, positive=positive)
+            if positive and c["seed"] % 2:
+                # the Cash statistic needs a positive model, not positive data (background-subtracted counts): shift part of the image below 0
+                data = data - 0.6 * float(np.median(data))
             mask = U.make_mask(rng, N, c["mask"])
             sky = c["sky"] if not positive else "flat"
             Rcls = U.RENDERERS[c["renderer"]]
@@ -79,8 +85,18 @@ def real_eval(payload):
             if c["kind"] == "single":
                 prior = U.source_prior(c["types"][0], sky_type=sky, suffix=sfx, xc=N / 2 + 0.3, yc=N / 2 - 0.2, flux=80.0, r_eff=1.8,
                                        sky_guess=3.0 if positive else 0.4)
+                requests = {}
+                if c.get("custom"):
+                    prior.set_truncated_gaussian_prior("flux", 60.0, 45.0, low=0.0)
+                    requests["flux" + sfx] = dict(family="truncnormal", loc=60.0, scale=45.0, low=(0.0 - 60.0) / 45.0, high=None)
+                    prior.set_gaussian_prior("xc", N / 2 - 0.4, 0.7)
+                    requests["xc" + sfx] = dict(family="normal", loc=N / 2 - 0.4, scale=0.7, low=None, high=None)
+                    if "ellip" + sfx in prior.dist_dict:
+                        prior.set_uniform_prior("ellip", 0.0, 0.6)
+                        requests["ellip" + sfx] = dict(family="uniform", loc=0.0, scale=0.6, low=None, high=None)
                 f = U.pysersic.FitSingle(data, rms, psf, prior, mask=mask, loss_func=loss, renderer=Rcls)
             else:
+                requests = {}
                 prior, _ = U.multi_prior(c["types"], N, rng, sky_type=sky, suffix=sfx)
                 f = U.pysersic.FitMulti(data, rms, psf, prior, mask=mask, loss_func=loss, renderer=Rcls)
             model = f.build_model(return_model=True)
@@ -109,7 +125,7 @@ def real_eval(payload):
                 bare = f.renderer.render_for_model(params, list(c["types"]), sfx)
             sky_sfx = sfx if c["kind"] == "single" else ""
             skyv = {k: float(tr[k + sky_sfx]["value"]) for k in ("sky_back", "sky_x_sl", "sky_y_sl") if k + sky_sfx in tr}
-            out.append(dict(sites=sites, entries=entries, total=total, data=np.asarray(f.data, dtype=np.float64), rms=np.asarray(f.rms, dtype=np.float64),
+            out.append(dict(sites=sites, entries=entries, total=total, requests=requests, data=np.asarray(f.data, dtype=np.float64), rms=np.asarray(f.rms, dtype=np.float64),
                             good=np.asarray(f.mask), user_mask=None if mask is None else np.asarray(mask) != 0, bare=np.asarray(bare, dtype=np.float64),
                             skyv=skyv, sky=sky, lat={k: float(v) for k, v in lat.items() if np.ndim(v) == 0}))
         except Exception as e:
@@ -233,7 +249,16 @@ def judge(ctx, c, r, x64):
             viol.append(v("latents", f"latent sites {sorted(latent ^ exp_latent)} differ from the prior's parameters + the loss's nuisance parameters"))
         for n in names:
             if n + "_base" in sites:
-                ref = scipy_base_logpdf(ents[n], zs[n])
+                want = (r.get("requests") or {}).get(n)
+                if want is not None:
+                    # a prior the user set through the public helpers: judged against what was asked for, not what was installed
+                    ref = scipy_base_logpdf(want, zs[n])
+                    xv = want["loc"] + want["scale"] * zs[n]
+                    if not abs(float(sites[n]["value"]) - xv) <= 2e-5 * max(1.0, abs(xv)):
+                        viol.append(v("user-prior-value", f"user-set prior of {n}: exposed value {float(sites[n]['value']):.7g} ≠ loc + scale·base = {xv:.7g}"))
+                        break
+                else:
+                    ref = scipy_base_logpdf(ents[n], zs[n])
                 rl = float(sites[n + "_base"]["logp"])
                 if not abs(rl - ref) <= 1e-4 + 1e-5 * abs(ref):
                     viol.append(v("prior-term", f"log prior of {n} = {rl:.7g}, scipy {ref:.7g}"))
